@@ -84,6 +84,16 @@ func implSlice(c core.Case) []string {
 				}
 				s.Values[i] = v
 				return "ok " + fmt.Sprint(s.Values)
+			case len(t) == 3 && t[0] == "setfix":
+				// the client's `s.Values[i] = v; s.Fix(i)`; the assignment itself panics when i >= len
+				i, ok1 := atoi(t[1])
+				v, ok2 := atoi(t[2])
+				if !ok1 || !ok2 || i < 0 || strings.HasPrefix(t[1], "-") {
+					return "bad-op"
+				}
+				s.Values[i] = v
+				s.Fix(i)
+				return "ok " + fmt.Sprint(s.Values)
 			case len(t) == 1 && t[0] == "popall":
 				xs := []int{}
 				for x := range s.PopAll() {
@@ -123,6 +133,11 @@ func checkSlice(c core.Case, out []string) *core.Failure {
 		if len(t) == 0 || out[i] == "bad-op" {
 			return nil
 		}
+		if t[0] == "setfix" && len(t) == 3 {
+			if idx, ok := atoi(t[1]); !ok || idx < 0 || idx >= len(cur) {
+				return nil // the caller's own out-of-range assignment
+			}
+		}
 		if out[i] == "panic" || out[i] == "dead" {
 			return fail("slice-panic", i, c, out, "a Slice method panicked")
 		}
@@ -133,7 +148,7 @@ func checkSlice(c core.Case, out []string) *core.Failure {
 			return fail("slice-format", i, c, out, "unparsable")
 		}
 		res := strings.TrimSpace(out[i][:k])
-		if dirty >= 0 && !(t[0] == "fix" && len(t) == 2 && t[1] == strconv.Itoa(dirty)) {
+		if dirty >= 0 && !((t[0] == "fix" && len(t) == 2 || t[0] == "setfix" && len(t) == 3) && t[1] == strconv.Itoa(dirty)) {
 			return nil // the caller broke the heap and did not call Fix: nothing is promised
 		}
 		switch t[0] {
@@ -210,6 +225,17 @@ func checkSlice(c core.Case, out []string) *core.Failure {
 			ref, _ = removeOne(ref, prev[idx])
 			ref = append(ref, v)
 			dirty = idx
+		case "setfix":
+			// Values[idx] = v; Fix(idx): the multiset has v in place of the old value, and the
+			// order holds again (checked below)
+			idx, _ := atoi(t[1])
+			v, _ := atoi(t[2])
+			if res != "ok" {
+				return fail("slice-format", i, c, out, "unparsable")
+			}
+			ref, _ = removeOne(ref, prev[idx])
+			ref = append(ref, v)
+			dirty = -1
 		case "popall":
 			k2 := strings.Index(out[i], "]")
 			xs, ok := parseInts(out[i][:k2+1])
@@ -268,52 +294,109 @@ func pickIndex(r *core.Rand, n int) int {
 	return r.Intn(n)
 }
 
+// simIndex: the usual index choice, or (one time in five) an index whose removal sends the
+// substitute up — read off the generator's own picture of the array (see hSim).
+func simIndex(r *core.Rand, sim *hSim) int {
+	if r.Chance(20) {
+		if i := sim.upIndex(r, 0); i >= 0 {
+			return i
+		}
+	}
+	return pickIndex(r, len(sim.arr[0]))
+}
+
 func genSlice(r *core.Rand) core.Case {
 	g := &tagger{}
-	hdr := "@ C04 slice " + pickCmp(r)
+	cn := pickCmp(r)
+	sim := &hSim{cmp: cmpOf(cn), focus: -1}
+	wide := r.Chance(25) // many keys instead of six: longer sift paths
+	val := func() int {
+		v := g.val(r)
+		if wide {
+			v += r.Range(0, 9) * 6000
+		}
+		return v
+	}
+	hdr := "@ C04 slice " + cn
 	n := r.Range(0, 9)
 	if r.Chance(10) {
 		n = r.Range(10, 40)
 	}
-	for i := 0; i < n; i++ {
-		hdr += " " + strconv.Itoa(g.val(r))
+	vs := make([]int, n)
+	for i := range vs {
+		vs[i] = val()
+		hdr += " " + strconv.Itoa(vs[i])
 	}
+	sim.init(0, vs)
 	lines := []string{hdr}
 	ops := r.Range(1, 60)
+	target := r.Range(1, 14)
+	if n >= 10 {
+		target = n
+	}
 	for len(lines) <= ops {
-		switch r.Pick(25, 18, 3, 2, 22, 18, 6, 1) {
+		n := len(sim.arr[0])
+		pushW := 16
+		if n < target {
+			pushW = 40
+		}
+		switch r.Pick(pushW, 18, 3, 2, 22, 12, 6, 1, 10) {
 		case 0:
-			lines = append(lines, fmt.Sprintf("push %d", g.val(r)))
-			n++
+			v := val()
+			lines = append(lines, fmt.Sprintf("push %d", v))
+			sim.attach(0, sim.alloc(v))
 		case 1:
 			lines = append(lines, "pop")
-			if n > 0 {
-				n--
-			}
+			sim.pop(0, 'p')
 		case 2:
 			lines = append(lines, "peek")
 		case 3:
 			lines = append(lines, "len")
 		case 4:
-			i := pickIndex(r, n)
+			i := simIndex(r, sim)
 			lines = append(lines, fmt.Sprintf("rm %d", i))
 			if i >= 0 && i < n {
-				n--
+				sim.remove(0, sim.arr[0][i])
 			}
 		case 5:
 			if n == 0 {
 				continue
 			}
 			i := r.Intn(n)
-			lines = append(lines, fmt.Sprintf("set %d %d", i, g.val(r)))
+			v := val()
+			lines = append(lines, fmt.Sprintf("set %d %d", i, v))
+			sim.vals[sim.arr[0][i]] = v
 			if !r.Chance(4) {
 				lines = append(lines, fmt.Sprintf("fix %d", i))
+				sim.fix(0, sim.arr[0][i])
 			}
 		case 6:
-			lines = append(lines, fmt.Sprintf("fix %d", pickIndex(r, n)))
+			i := pickIndex(r, n)
+			lines = append(lines, fmt.Sprintf("fix %d", i))
+			if i >= 0 && i < n {
+				sim.fix(0, sim.arr[0][i])
+			}
 		case 7:
 			lines = append(lines, "popall")
-			n = 0
+			for len(sim.arr[0]) > 0 {
+				sim.pop(0, 'a')
+			}
+		case 8:
+			// Values[i] = v; Fix(i) as one call, 0 <= i < len only (the assignment would panic)
+			if n == 0 {
+				continue
+			}
+			i := r.Intn(n)
+			switch r.Pick(15, 15, 70) {
+			case 0:
+				i = 0
+			case 1:
+				i = n - 1
+			}
+			v := val()
+			lines = append(lines, fmt.Sprintf("setfix %d %d", i, v))
+			sim.vals[sim.arr[0][i]] = v
+			sim.fix(0, sim.arr[0][i])
 		}
 	}
 	return core.Case{Lines: lines, Tag: "slice"}
